@@ -364,4 +364,18 @@ theorem stranded_below_delete_bound_witness :
     q.items = [(5, "x05")] ∧ q.nextFrom = 101 ∧ (consume q).2 = none ∧
     (consume (reopen q)).2 = some (5, "x05") := by decide
 
+/-- THE FULL STATEMENT of progress (no cursor hypothesis): every stored item is received
+after at most `Len` consumes in the current open. -/
+def progress_full : Prop :=
+  ∀ (ops : List (Op String)) (p : Item String), p ∈ (runQ empty ops).items →
+    p ∈ emitted (runQ empty ops) (List.replicate (runQ empty ops).items.length Op.consume)
+
+/-- false: the stranded item of `stranded_below_delete_bound_witness` (known finding; `progress`
+is the partial statement, under "the item is at or above the cursor") -/
+theorem progress_witness : ¬ progress_full := by
+  intro h
+  have := h [.enq 1 "x01", .consume, .del 100, .enq 5 "x05"] (5, "x05") (by decide)
+  revert this
+  decide
+
 end C26
